@@ -215,6 +215,7 @@ func (p *Pop) Write() {
 		case "isfile":
 			must(os.WriteFile(d, []byte("not a directory"), 0o644))
 		case "enotdir": // d = <file>/sub
+			os.RemoveAll(filepath.Dir(d))
 			must(os.WriteFile(filepath.Dir(d), []byte("not a directory"), 0o644))
 		case "noread":
 			must(os.Chmod(d, 0o311))
